@@ -1,8 +1,8 @@
 SPECIFICATION Spec
 CONSTANTS
-  Slice = "relay"
+  Slice = "forge"
   Big = FALSE
-  MaxEdits = 0
+  MaxEdits = 2
 INVARIANT Inv_ScanIsFirstApplicable
 INVARIANT Inv_UnprotectedGranted
 INVARIANT Inv_NoGrantNoProtectedAccess
